@@ -73,8 +73,11 @@ def _iter_chunked(read, buff_size):
             if not part:
                 raise parsing_err
             yield part
-            rest_len -= part_size
-        if read(2) != rn:
+            rest_len -= len(part)
+        crlf = read(2)
+        if len(crlf) == 1:  # short read
+            crlf += read(1)
+        if crlf != rn:
             raise parsing_err
 
 
